@@ -95,7 +95,7 @@ func (r *OffsetFetchRequest) decode(pd packetDecoder, version int16) (err error)
 	var partitionCount int
 
 	if isFlexible {
-		partitionCount, err = pd.getCompactArrayLength()
+		partitionCount, err = pd.getCompactNullableArrayLength()
 	} else {
 		partitionCount, err = pd.getNullableArrayLength()
 	}
@@ -103,11 +103,10 @@ func (r *OffsetFetchRequest) decode(pd packetDecoder, version int16) (err error)
 		return err
 	}
 
-	if (partitionCount == 0 && version < 2) || partitionCount < 0 {
-		return nil
+	// a null array asks for all partitions, an empty one for none
+	if !((partitionCount == 0 && version < 2) || partitionCount < 0) {
+		r.partitions = make(map[string][]int32, partitionCount)
 	}
-
-	r.partitions = make(map[string][]int32, partitionCount)
 	for i := 0; i < partitionCount; i++ {
 		var topic string
 		if isFlexible {
